@@ -18,6 +18,7 @@ import (
 
 	"github.com/jech/storrent/alloc"
 	"github.com/jech/storrent/config"
+	"github.com/jech/storrent/hash"
 	"github.com/jech/storrent/tor"
 	"github.com/jech/storrent/verifhook"
 	"verifharness/fixture"
@@ -255,6 +256,93 @@ func runLRU(t *testing.T, c *vk.C, rng *rand.Rand) {
 	})
 }
 
+// runDying: one torrent is in the middle of its deletion when the global pass runs: its loop has stopped
+// (every call on it fails), it is still in the table, and it still holds memory because Pieces.Del waits for
+// a piece that is being hashed. The pass must still do its work on the torrents that live: together they
+// end up at or below the low mark (they hold nothing busy).
+func runDying(t *testing.T, c *vk.C, rng *rand.Rand) {
+	swarm.Run(t, c, "C03", func(sw *swarm.Swarm) {
+		base := alloc.Bytes()
+		var live []*swarm.Tor
+		n := 2 + rng.IntN(4)
+		for k := 0; k < n; k++ {
+			g := fixture.RandGeo(rng, 1<<20, []uint32{64 << 10, 128 << 10, 256 << 10})
+			g.Name = fmt.Sprintf("live%d", k)
+			tr := sw.AddTorrent(g, swarm.TorOpts{})
+			var all []int
+			for p := 0; p < g.NumPieces(); p++ {
+				all = append(all, p)
+			}
+			tr.Prefill(all)
+			for _, p := range all {
+				tr.T.Pieces.UpdateTime(uint32(p))
+			}
+			live = append(live, tr)
+		}
+		ga := &fixture.Geo{Name: "dying", PieceLen: 128 << 10, Length: 128 << 10, Seed: rng.Uint64() | 1}
+		a := sw.AddTorrent(ga, swarm.TorOpts{})
+		for b := 0; b < ga.BlocksIn(0); b++ {
+			a.T.Pieces.AddData(0, uint32(b*fixture.Block), ga.Truth(int64(b*fixture.Block), ga.BlockLen(0, b)), 0)
+		}
+		rel := make(chan struct{})
+		verifhook.SetPoint(func(name string) {
+			if name == "piece.finalise.hash.begin" {
+				<-rel
+			}
+		})
+		defer verifhook.SetPoint(nil)
+		finDone := make(chan struct{})
+		go func() {
+			defer close(finDone)
+			a.T.Pieces.Finalise(0, hash.Hash(ga.PieceHash(0)))
+		}()
+		sw.Cut()
+		killDone := make(chan struct{})
+		go func() { defer close(killDone); a.Kill() }()
+		sw.Cut()
+		time.Sleep(100 * time.Millisecond)
+		sw.Cut()
+		select {
+		case <-a.T.Done:
+		default:
+			close(rel)
+			<-finDone
+			<-killDone
+			c.Inconclusive("the dying torrent's loop has not stopped")
+			return
+		}
+		used := alloc.Bytes() - base
+		config.MemoryMark = base + used/2
+		low := config.MemoryLowMark()
+		rc := tor.Expire()
+		sw.Cut()
+		time.Sleep(time.Second)
+		sw.Cut()
+		config.MemoryMark = 1 << 40
+		c.Count("dying_rounds", 1)
+		c.Count(fmt.Sprintf("expire_rc:%d", rc), 1)
+		var sum int64
+		evictable := false
+		for _, tr := range live {
+			sum += tr.T.Pieces.Bytes()
+			if tr.T.Pieces.Count() > 0 {
+				evictable = true
+			}
+		}
+		stillDying := tor.Get(a.T.Hash) != nil
+		if stillDying {
+			c.Count("dying_torrent_still_listed_during_pass", 1)
+		}
+		if rc < 0 && base+sum > low && evictable {
+			sw.Viol("C03", "low-mark", "tor-expire-skips-live-torrents dying-torrent-in-table", fmt.Sprintf("after an eviction round the %d live torrents hold %d bytes (low mark %d above a baseline of %d) and have evictable pieces; a torrent in the middle of its deletion was in the table", len(live), sum, low-base, base))
+		}
+		close(rel)
+		<-finDone
+		<-killDone
+		sw.Cut()
+	})
+}
+
 func TestCheck(t *testing.T) {
 	r := vk.New("C03")
 	defer r.Done()
@@ -293,6 +381,18 @@ func TestCheck(t *testing.T) {
 		c := r.Begin(i, map[string]any{"family": "lru-through-request", "k": k})
 		runLRU(t, c, r.Env.Rng(i))
 		c.FP(vk.Hash64("lru-through-request", k%50), true)
+		c.End()
+	}
+	// a torrent in the middle of its deletion during the global pass
+	for k := 0; k < r.Env.N(120, 3000); k++ {
+		i := idx
+		idx++
+		if !r.Mine(i) {
+			continue
+		}
+		c := r.Begin(i, map[string]any{"family": "dying-torrent-during-pass", "k": k})
+		runDying(t, c, r.Env.Rng(i))
+		c.FP(vk.Hash64("dying", k%40), true)
 		c.End()
 	}
 	// zero torrents at all
